@@ -22,7 +22,8 @@ class Ctx:
         self.ks = {n: i for i, n in enumerate(self.keystates)}
         self.errors = [v['name'] for v in p.adt('Error')['variants']]
         self.err = {n: i for i, n in enumerate(self.errors)}
-        self.dstates = [v['name'] for v in p.adt('DecodeState')['variants']]
+        ds_adt = [a for a in facts['adts'] if a['path'].split('::')[-1] == 'DecodeState']
+        self.dstates = [v['name'] for v in ds_adt[0]['variants']] if ds_adt else []   # display only
         self.ds = {n: i for i, n in enumerate(self.dstates)}
         self.modfields = [f['name'] for f in p.adt('Modifiers')['variants'][0]['fields']]
         self.mf = {n: i for i, n in enumerate(self.modfields)}
